@@ -566,6 +566,14 @@ func (c *BuilderCase) checkLayout(defs *schema.Definitions, nodes []c19node, flo
 // c19projection lists what has to survive the round trip, in a canonical order.
 func c19projection(defs *schema.Definitions) []string {
 	var out []string
+	sp := func(p *string) string {
+		if p == nil {
+			return "<absent>"
+		}
+		return *p
+	}
+	out = append(out, fmt.Sprintf("definitions id=%s expressionLanguage=%s typeLanguage=%s exporter=%s exporterVersion=%s targetNamespace=%s",
+		sp(defs.IdField), sp(defs.ExpressionLanguageField), sp(defs.TypeLanguageField), sp(defs.ExporterField), sp(defs.ExporterVersionField), defs.TargetNamespaceField))
 	for pi := range *defs.Processes() {
 		p := &(*defs.Processes())[pi]
 		id := ""
